@@ -196,6 +196,33 @@ pub fn order(depth: usize) -> Value {
             }
         }
     }
+    // more rows than one processing window (1024): full sort on two keys, LIMIT / OFFSET far into the order
+    for e in [Engine::Mem, Engine::Disk { block: 4096, rowset: 1 }] {
+        let nrows = 2500i64;
+        let rows: Vec<Row> = (0..nrows).map(|i| vec![Some((i * 7919) % nrows), Some(i % 3)]).collect();
+        let mut sqls = vec!["create table g(a int, b int)".to_string()];
+        for part in rows.chunks(900) { sqls.push(insert("g", part)); }
+        let q0 = sqls.len();
+        let key_lists: Vec<(&str, Vec<(usize, bool)>)> = vec![("b desc, a", vec![(1, true), (0, false)]), ("a desc", vec![(0, true)])];
+        let mut wants: Vec<Vec<Vec<String>>> = vec![];
+        for (ks, keys) in &key_lists {
+            let mut m = rows.clone(); m.sort_by(|x, y| cmp_keys(x, y, keys, true));
+            sqls.push(format!("select a, b from g order by {ks}")); wants.push(strs(&m));
+            sqls.push(format!("select a, b from g order by {ks} limit 5 offset 1200")); wants.push(strs(&m[1200..1205]));
+            sqls.push(format!("select a, b from g order by {ks} limit 1500 offset 900")); wants.push(strs(&m[900..2400]));
+            sqls.push(format!("select a, b from g order by {ks} offset 2490")); wants.push(strs(&m[2490..]));
+        }
+        tried += wants.len() as u64;
+        let outs = match run(e, &sqls, &[]) { Ok(o) => o, Err(err) => return found_raw(tried, e, &sqls[..1], &[], 0, "the session (2500-row ORDER BY) to run".into(), err) };
+        for (j, want) in wants.iter().enumerate() {
+            let brief = |v: &Vec<Vec<String>>| format!("{} rows, first {:?}, last {:?}", v.len(), v.first(), v.last());
+            match &outs[q0 + j] {
+                Ok(got) if got == want => {}
+                Ok(got) => { let at = got.iter().zip(want.iter()).position(|(x, y)| x != y); return found_raw(tried, e, &[sqls[0].clone(), "insert into g: 2500 rows (a = (i * 7919) % 2500, b = i % 3) in 3 statements".into(), sqls[q0 + j].clone()], &[], 2, brief(want), format!("{}; first difference at row {:?}", brief(got), at)); },
+                Err(err) => return found_raw(tried, e, &[sqls[q0 + j].clone()], &[], 0, brief(want), format!("error: {err}")),
+            }
+        }
+    }
     // a key list LONGER than the order the input already has, with ties on that prefix: a primary key with duplicate values
     // (they are not rejected), rows in two RowSets; and an ordered, limited subquery ordered again by more keys
     for e in engines() {
@@ -920,6 +947,31 @@ pub fn ddl(depth: usize) -> Value {
                 match &outs[idx] {
                     Ok(got) if got == w => {}
                     other => return found_raw(tried, e, &short(idx), &reopen, idx, format!("{w:?}"), format!("{other:?}")),
+                }
+            }
+        }
+    }
+    // every column type the SQL layer can store: what the on-disk engine returns after two reopen cycles is what the in-memory
+    // engine (no files involved) returns for the same statements
+    {
+        let sqls: Vec<String> = vec![
+            "create table ty(id int primary key, b boolean, si smallint, bi bigint, d double, dc decimal(12,3), dt date, s varchar, c char(4))".into(),
+            "insert into ty values (1, true, 7, 9000000000, 1.5, 12345.678, date '2024-02-29', 'héllo wörld', 'ab'), (2, false, -7, -9000000000, -0.25, -0.001, date '1969-12-31', '', 'abcd'), (3, null, null, null, null, null, null, null, null)".into(),
+            "insert into ty values (4, true, 32767, 9223372036854775807, 123456789.125, 999999999.999, date '9999-12-31', '中文 текст', 'é'), (5, false, -32768, -9223372036854775807, 0.1, 0.000, date '0001-01-01', 'x', '')".into(),
+            "select id, b, si, bi, d, dc, dt, s, c from ty".into(),
+            "select id, b, si, bi, d, dc, dt, s, c from ty".into(),
+            "select id, b, si, bi, d, dc, dt, s, c from ty".into(),
+            "select count(b), count(si), count(bi), count(d), count(dc), count(dt), count(s), count(c) from ty".into(),
+        ];
+        let reopen = vec![4usize, 5];
+        tried += 4;
+        let want = match run(Engine::Mem, &sqls, &[]) { Ok(o) => o, Err(err) => return found_raw(tried, Engine::Mem, &sqls, &[], 0, "the in-memory session to run".into(), err) };
+        if want[..3].iter().all(|o| o.is_ok()) {
+            for e in [Engine::Disk { block: 64, rowset: 1 }, Engine::Disk { block: 4096, rowset: 1 << 24 }] {
+                let outs = match run(e, &sqls, &reopen) { Ok(o) => o, Err(err) => return found_raw(tried, e, &sqls, &reopen, sqls.len() - 1, "the session (typed values, two reopen cycles) to run".into(), err) };
+                for i in 0..sqls.len() {
+                    let (a, b) = (outs[i].clone().map(sorted), want[i].clone().map(sorted));
+                    if a != b { return found_raw(tried, e, &sqls, &reopen, i, format!("what the in-memory engine returns: {b:?}"), format!("{a:?}")); }
                 }
             }
         }
